@@ -15,7 +15,7 @@ RULE = ("a case = a well-formed ordered list of <= 12 capability records (every 
         "records, sizes 1..10 incl. undersized temperature records). Oracle 1 (parser, metamorphic): raw_capabilities of the real parser "
         "on the whole list == merge in order of the real parser's results on each record alone. Oracle 2 (paging): after get_capabilities() "
         "against a simulated device the supported_*/supports_*/min/max snapshot is identical whether the device sends all records in one "
-        "response or splits them at any point k across a first response (more flag set) and an 'additional' response - for every k. "
+        "response or splits them at any point k across a first response (more flag set) and an 'additional' response - for every k; and (oracle 3) identical again when ONE object first receives the same first page with an empty additional page and is then queried again with the full list split at k. "
         "distinct = (record list, split point); non-trivial = lists with >= 2 records")
 ASSUMPTIONS = ["only well-formed lists (every record's size inside the body, count == number of records) are judged; ill-formed ones belong to C14",
                "single-record interpretations come from the real parser, so the oracle needs no capability value tables"]
@@ -146,6 +146,37 @@ def run_case(ctx, case):
             diff = {f: (base[f], snap[f]) for f in base if base[f] != snap[f]}
             ctx.violation(_mech(records) if _has_short_temps(records) else "paging-differs",
                           f"capabilities differ between one response and a split at {k}: {diff}", case, {"split": k, "diff": diff})
+
+
+    # ---- oracle 3: the result of a query does not depend on what the same object learned from an earlier query
+    net = H.new_net()
+    model = ACModel()
+    dev = SimDevice(net, version=2, device_id=0x56, ac=model)
+    out = []
+
+    async def again(loop):
+        ac = AC(ip=dev.host, port=dev.port, device_id=dev.device_id)
+        for k in range(n):
+            # same first page, but the additional page is empty this time ...
+            model.caps_pages = [records[:k], []]
+            await ac.get_capabilities()
+            # ... and now the device delivers the full list, split at the same point
+            model.caps_pages = [records[:k], records[k:]]
+            await ac.get_capabilities()
+            out.append((k, c13._snapshot(ac)[1]))
+
+    try:
+        H.run_virtual(again, net)
+    except Exception as e:  # noqa: BLE001
+        ctx.violation("paging-raises", f"repeated get_capabilities raised {type(e).__name__}: {e}", case)
+        return
+    for k, snap in out:
+        ctx.count((key, "requery", k), nontrivial=n >= 2, kind="requery-compared")
+        if snap != base:
+            diff = {f: (base[f], snap[f]) for f in base if base[f] != snap[f]}
+            ctx.violation(_mech(records) if _has_short_temps(records) else "requery-differs",
+                          f"capabilities after querying the same object again (same first page, split {k}) differ from a fresh query: {diff}", case,
+                          {"split": k, "diff": diff})
 
 
 def _has_short_temps(records) -> bool:
